@@ -225,6 +225,7 @@ def run(rep, tier):
             if nb <= 3:
                 rep.tie_broken('ApertureStats model and implementation disagree', {'op': ln[:300], 'model': o, 'impl': vals})
     sigclip_and_sky(rep, r, 25 * scale)
+    thin_lines_probe(rep, r, 20 * scale)
 
 
 def sigclip_and_sky(rep, r, n):
@@ -292,6 +293,37 @@ def sigclip_and_sky(rep, r, n):
                     rep.violation('sky-ne-pixel', 'sky aperture statistics differ from its to_pixel image', {})
         rep.case(('sig', img.tobytes()), True, kind='sigclip/localbkg/sky')
         rep.probe_only += 1
+
+
+def thin_lines_probe(rep, r, n):
+    """(S) one-pixel-wide diagonal lines: the covariance determinant is zero mathematically and negative by round-off in a fraction of the
+    cases; the shape columns are those of the regularised (+1/12 on the diagonal) covariance, never NaN (defect F75; F51 for SourceCatalog)"""
+    from photutils.aperture import ApertureStats, CircularAperture
+    for k in range(n):
+        rs = np.random.RandomState(r.randrange(2 ** 31))
+        img = np.zeros((21, 21))
+        sgn, L = rs.choice([-1, 1]), rs.randint(2, 5)
+        for i in range(-L, L + 1):
+            img[10 + i, 10 + sgn * i] = rs.uniform(0.5, 3.0)
+        pos = [(10 + rs.uniform(-0.5, 0.5), 10 + rs.uniform(-0.5, 0.5)) for _ in range(2)]
+        with warnings.catch_warnings():
+            warnings.simplefilter('ignore')
+            st = ApertureStats(img, CircularAperture(pos, 6.5))
+            cov = np.asarray(getattr(st.covariance, 'value', st.covariance), float)
+            smaj = np.asarray(getattr(st.semimajor_sigma, 'value', st.semimajor_sigma), float)
+        rep.case(('thin-line', img.tobytes()), True, kind='thin-diagonal-line')
+        rep.probe_only += 1
+        # direct second moments of the aperture pixel set (all line pixels lie inside the aperture)
+        ys, xs = np.nonzero(img)
+        w = img[ys, xs]
+        cx, cy = (w * xs).sum() / w.sum(), (w * ys).sum() / w.sum()
+        mxx, myy, mxy = (w * (xs - cx) ** 2).sum() / w.sum(), (w * (ys - cy) ** 2).sum() / w.sum(), (w * (xs - cx) * (ys - cy)).sum() / w.sum()
+        want = np.array([[mxx + 1 / 12, mxy], [mxy, myy + 1 / 12]])
+        for j in range(2):
+            if not np.all(np.isfinite(cov[j])) or not np.isfinite(smaj[j]) or not np.allclose(cov[j], want, rtol=1e-9, atol=1e-12):
+                rep.violation('thin-source-covariance', f'one-pixel-wide diagonal line: covariance {cov[j].tolist()}, semimajor_sigma {smaj[j]}; the second moments of the '
+                              f'aperture pixels regularised by 1/12 are {want.tolist()}', {'image': img.tolist(), 'positions': [list(p_) for p_ in pos]})
+                break
 
 
 def replay(rep, data):
